@@ -243,6 +243,11 @@ func (e *Eval) dumper(offset int, opCode code.Opcode, opArg interface{}) (bool, 
 // of the constant-pool
 func (e *Eval) Dump() error {
 
+	// Without a successful call to Prepare there is nothing to show.
+	if e.machine == nil {
+		return fmt.Errorf("there is no bytecode to dump: Prepare has not been called, or it failed")
+	}
+
 	fmt.Printf("Bytecode:\n")
 
 	// Use the walker to dump the bytecode.
